@@ -21,38 +21,74 @@ RECORD = "union[nt[KCM],nt[Ping],nt[Pong],nt[Open],nt[Data],nt[Close],nt[Ack]]"
 U32 = 4294967296
 
 
+def _noise_ufs():
+    from pyvc.models import uf
+    return uf("noise_ok", IntS, StringS, BoolS), uf("noise_dec", IntS, StringS, StringS)
+
+
+def _ghost(it, recv, name, ty):
+    recv = it.force(recv)
+    if name not in recv.fields:
+        recv.fields[name] = it.fresh(ty, "noise." + name)
+    return recv.fields[name]
+
+
 def noise_encrypt(it, recv, meth, args, kwargs, fr):
-    """assumed Noise contract: ciphertext is 16 bytes longer than the plaintext (AEAD tag);
-    plaintexts up to NOISE_MAX_PAYLOAD only"""
+    """assumed Noise contract (AEAD with a stateful nonce): the ciphertext is 16 bytes longer than the plaintext (tag);
+    plaintexts up to NOISE_MAX_PAYLOAD only; the ciphertext made at sending nonce n is accepted at receiving nonce n and
+    decrypts to the plaintext: noise_ok(n, c) and noise_dec(n, c) == p; the nonce counter advances by one"""
+    ok, dec = _noise_ufs()
     m = it.force(args[0])
+    n = _ghost(it, recv, "tx", "int")
     c = z3.String(it.ctx.namer("noise_ct"))
     it.ctx.assume(z3.Length(c) == z3.Length(m.z) + 16)
     it.ctx.prove(z3.Length(m.z) <= 65519, "noise.encrypt.payload-fits-one-packet",
                  {"kind": "call-requires", "src": "len(plaintext) <= NOISE_MAX_PAYLOAD at every noise.encrypt()"})
+    it.ctx.assume(ok(n.z, c))
+    it.ctx.assume(dec(n.z, c) == m.z)
+    it.force(recv).fields["tx"] = VInt(n.z + 1)
     it.ctx.event("noise.encrypt", m, VStr(c, "bytes"))
     return VStr(c, "bytes")
 
 
 def noise_decrypt(it, recv, meth, args, kwargs, fr):
-    """either NoiseInvalidMessage (not produced with the key / out of sequence / too short) or a
-    plaintext 16 bytes shorter"""
+    """at receiving nonce n: NoiseInvalidMessage iff not noise_ok(n, c) (not produced with the key at this nonce, corrupted,
+    too short), else the plaintext noise_dec(n, c), 16 bytes shorter, and the nonce counter advances by one"""
+    ok, dec = _noise_ufs()
     c = it.force(args[0])
+    n = _ghost(it, recv, "rx", "int")
+    _ghost(it, recv, "failed", "bool")
     it.ctx.prove(z3.Length(c.z) <= 65535, "noise.decrypt.ciphertext-fits-one-packet",
                  {"kind": "call-requires", "src": "len(ciphertext) <= NOISE_MAX_CIPHERTEXT at every noise.decrypt()"})
-    if it.ctx.choose([z3.BoolVal(True), z3.BoolVal(True)], "noise.decrypt") == 1:
+    if not it.ctx.branch(ok(n.z, c.z), "noise.decrypt"):
+        it.force(recv).fields["failed"] = VBool(True)
         it.ctx.event("noise.decrypt.invalid", c)
         it.raise_("NoiseInvalidMessage")
-    m = z3.String(it.ctx.namer("noise_pt"))
+    m = dec(n.z, c.z)
     it.ctx.assume(z3.Length(c.z) >= 16)
     it.ctx.assume(z3.Length(m) == z3.Length(c.z) - 16)
+    it.force(recv).fields["rx"] = VInt(n.z + 1)
     it.ctx.event("noise.decrypt", c, VStr(m, "bytes"))
     return VStr(m, "bytes")
 
 
 def noise_read_message(it, recv, meth, args, kwargs, fr):
+    """the handshake message is either rejected (NoiseInvalidMessage: not made with the dilation key) or accepted"""
+    _ghost(it, recv, "failed", "bool")
     if it.ctx.choose([z3.BoolVal(True), z3.BoolVal(True)], "noise.read_message") == 1:
+        it.force(recv).fields["failed"] = VBool(True)
+        it.ctx.event("noise.read_message.invalid", it.force(args[0]))
         it.raise_("NoiseInvalidMessage")
     return VStr(z3.String(it.ctx.namer("hs_payload")), "bytes")
+
+
+def noise_write_message(it, recv, meth, args, kwargs, fr):
+    """assumed: a Noise handshake message is at most one Noise packet (65535 bytes)"""
+    m = z3.String(it.ctx.namer("noise_hs_out"))
+    it.ctx.assume(z3.Length(m) <= 65535)
+    it.ctx.event("bcall", "Noise", "write_message", [], {})
+    it.ctx.event("noise.write_message", VStr(m, "bytes"))
+    return VStr(m, "bytes")
 
 
 def regf(exclude=()):
@@ -66,6 +102,7 @@ def regf(exclude=()):
     reg.boundary["Noise.decrypt"] = noise_decrypt
     reg.boundary["Noise.read_message"] = noise_read_message
     reg.class_fields["_Framer"] = {"_can_send_frames": "bool", "_transport": "obj[Transport]", "_buffer": "bytes"}
+    reg.class_fields["Noise"] = {"tx": "int", "rx": "int", "failed": "bool"}     # ghost: nonce counters, "rejected something"
     sf = reg.spec_funcs
 
     def events(it, name):
@@ -78,6 +115,8 @@ def regf(exclude=()):
 
     sf["ceil_div"] = ceil_div
     sf["min2"] = lambda it, a, b: VInt(z3.If(a.z < b.z, a.z, b.z))
+    sf["noise_ok"] = lambda it, n, c: VBool(_noise_ufs()[0](n.z, c.z))
+    sf["noise_dec"] = lambda it, n, c: VStr(_noise_ufs()[1](n.z, c.z), "bytes")
     return reg
 
 
@@ -183,7 +222,15 @@ CONTRACTS = [
     Contract("wormhole/_dilation/connection.py:_Record.send_record", props=[PROP], params={"r": RECORD},
              self_fields={"_noise": "obj[Noise]", "_framer": "obj[_Framer]"},
              requires=[REC_REQ, "self._framer._can_send_frames", "payload_len(r) < 4000000000"],
+             modifies=["_noise.tx"],
+             ensures=[("one-nonce-per-packet", "self._noise.tx > old(self._noise.tx)")],
              internal_ensures=[
+                 ("nonces-used-are-consecutive", "self._noise.tx == old(self._noise.tx) + n_events('noise.encrypt') or len(message) > 65519"),
+                 ("multi-packet-nonces", "implies(len(message) > 65519, self._noise.tx == old(self._noise.tx) + ceil_div(len(message), 65519))"),
+                 ("every-packet-opens-to-its-slice-at-its-nonce",
+                  "implies(len(message) > 65519, forall(lambda k: implies(0 <= k and k < ceil_div(len(message), 65519), "
+                  "noise_ok(old(self._noise.tx) + k, frame[65535 * k:65535 * (k + 1)]) and "
+                  "noise_dec(old(self._noise.tx) + k, frame[65535 * k:65535 * (k + 1)]) == message[65519 * k:65519 * (k + 1)])))"),
                  ("one-frame", "bcalls('write') == 1 and len(bcall_names()) == 1 and "
                                "bcall_arg('write', 0, 0) == be4(len(frame)) + frame"),
                  ("single-packet-iff-fits", "implies(len(message) <= 65519, n_events('noise.encrypt') == 1 and "
@@ -196,25 +243,42 @@ CONTRACTS = [
                         "invariant": ["n_enc >= 0", "start == 65519 * n_enc",
                                       "n_enc == 0 or 65519 * (n_enc - 1) < len(message)",
                                       "len(frame) == min2(start, len(message)) + 16 * n_enc",
-                                      "len(message) > 65519"]}},
+                                      "len(message) > 65519",
+                                      "self._noise.tx == at_entry(self._noise.tx) + n_enc",
+                                      "forall(lambda k: implies(0 <= k and k < n_enc, "
+                                      "noise_ok(at_entry(self._noise.tx) + k, frame[65535 * k:65535 * (k + 1)]) and "
+                                      "noise_dec(at_entry(self._noise.tx) + k, frame[65535 * k:65535 * (k + 1)]) == "
+                                      "message[65519 * k:65519 * (k + 1)]))"],
+                        "modifies": [("self", "_noise", "tx")]}},
              note="chunk arithmetic of the sender: k-th Noise packet is message[65519k:65519(k+1)], every packet but the "
                   "last is exactly 65535 bytes of ciphertext"),
     Contract("wormhole/_dilation/connection.py:_Record.decrypt_message", props=[PROP], params={"frame": "bytes"},
-             self_fields={"_noise": "obj[Noise]", "_framer": "obj[_Framer]"},
+             self_fields={"_noise": "obj[Noise]", "_framer": "obj[_Framer]"}, returns=RECORD,
+             requires=["not self._noise.failed"], modifies=["_noise.rx", "_noise.failed"],
              raises={"Disconnect": "True", "ValueError": None, "UnicodeDecodeError": None},
-             ensures_raise={"Disconnect": [("only-on-noise-failure", "n_events('noise.decrypt.invalid') >= 1")]},
+             ensures_raise={"Disconnect": [("only-on-noise-failure", "self._noise.failed")]},
+             ensures=[("nothing-was-rejected", "not self._noise.failed"), ("nonce-advanced", "self._noise.rx > old(self._noise.rx)")],
              internal_ensures=[("no-forged-frame-gets-through", "n_events('noise.decrypt.invalid') == 0"),
+                               ("multi-packet-plaintext-is-the-slices-opened-at-consecutive-nonces",
+                                "implies(size > 65535, forall(lambda k: implies(0 <= k and k < n_dec, "
+                                "call_arg('parse_record', 0, 0)[65519 * k:65519 * (k + 1)] == "
+                                "noise_dec(old(self._noise.rx) + k, frame[65535 * k:65535 * (k + 1)]))))"),
                                ("single-packet-branch", "implies(size <= 65535, n_events('noise.decrypt') == 1)")],
              loops={0: {"header": "start < size",
                         "ghost_init": {"n_dec": "0"}, "ghost_update": {"n_dec": "n_dec + 1"},
                         "invariant": ["n_dec >= 0", "start == 65535 * n_dec", "size == len(frame)", "size > 65535",
-                                      "len(message) == min2(start, size) - 16 * n_dec"]}},
+                                      "len(message) == min2(start, size) - 16 * n_dec",
+                                      "self._noise.rx == at_entry(self._noise.rx) + n_dec and not self._noise.failed",
+                                      "forall(lambda k: implies(0 <= k and k < n_dec, message[65519 * k:65519 * (k + 1)] == "
+                                      "noise_dec(at_entry(self._noise.rx) + k, frame[65535 * k:65535 * (k + 1)])))"],
+                        "modifies": [("self", "_noise", "rx"), ("self", "_noise", "failed")]}},
              note="NoiseInvalidMessage (frame not produced with the key, or corrupted) always becomes Disconnect; "
                   "k-th slice is frame[65535k:65535(k+1)]"),
     Contract("wormhole/_dilation/connection.py:_Record.process_handshake", props=[PROP], params={"frame": "bytes"},
-             self_fields={"_noise": "obj[Noise]", "_framer": "obj[_Framer]"},
-             raises={"Disconnect": None},
-             ensures=[("handshake-token", "result is not None")]),
+             self_fields={"_noise": "obj[Noise]", "_framer": "obj[_Framer]"}, returns="nt[Handshake]",
+             modifies=["_noise.failed"], raises={"Disconnect": None},
+             ensures_raise={"Disconnect": [("only-on-a-rejected-handshake", "self._noise.failed")]},
+             ensures=[("handshake-token", "result is not None and isinstance(result, Handshake)")]),
     Contract("lemma:packet_boundaries_coincide", props=[PROP], source_module="wormhole/_dilation/connection.py",
              params={"L": "int", "k": "int"},
              source_text="""
@@ -275,8 +339,7 @@ GEN_CONTRACTS = [
                   "self._inbound_prologue.startswith(self._buffer) or (b'\\n' not in self._buffer and len(self._buffer) < len(self._inbound_prologue)), "
                   "self._expected_relay_handshake.startswith(self._buffer) or "
                   "(b'\\n' not in self._buffer and len(self._buffer) < len(self._expected_relay_handshake))))"),
-                 ("own-prologue-sent-exactly-when-the-relay-said-ok",
-                  "len(bcall_names()) == bcalls('write') and bcalls('write') <= 1")],
+                 ],
              ensures=[("framer-invariant-kept", FRAMER_INV),
                       ("state-only-advances", "(not old(in_state(self, 'want_frame')) or in_state(self, 'want_frame')) and "
                                               "(not old(in_state(self, 'want_prologue')) or not in_state(self, 'want_relay'))")],
@@ -290,8 +353,9 @@ GEN_CONTRACTS = [
                             "iter_yields() == ite(at_iter(in_state(self, 'want_frame')), 1, ite(in_state(self, 'want_frame'), 1, 0))",
                             "iter_yields() == iter_yields('Frame') + iter_yields('Prologue')",
                             "iter_yields('Frame') == ite(at_iter(in_state(self, 'want_frame')), 1, 0)",
-                            "bcalls('write') == ite(at_iter(in_state(self, 'want_relay')), 1, 0) and len(bcall_names()) == bcalls('write')",
-                            "bcalls('write') == 0 or bcall_arg('write', 0, 0) == self._outbound_prologue"],
+                            "iter_own_bcalls('write') == ite(at_iter(in_state(self, 'want_relay')), 1, 0) and "
+                            "iter_own_bcalls() == iter_own_bcalls('write')",
+                            "iter_own_bcalls('write') == 0 or iter_own_bcall_arg('write', 0, 0) == self._outbound_prologue"],
                         "invariant": [
                             "at_entry(self._buffer) == hs + wire + self._buffer",
                             "nfr >= 0 and npro >= 0 and ny == nfr + npro",
@@ -307,6 +371,48 @@ GEN_CONTRACTS = [
                   "tokens in the order they are yielded (read from the yield events); the remainder holds no complete token"),
 ]
 
+AU = "_Record.add_and_unframe"
+DR = "DilatedConnectionProtocol.dataReceived"
+RECORD_FIELDS = {"__state": "state", "_framer": "obj[_Framer]", "_noise": "obj[Noise]"}
+# framer and record machines move in lock step: the record machine leaves want_prologue_* exactly when the framer has seen
+# the peer's prologue (established by DilatedConnectionProtocol.connectionMade: role set, both machines in their first state)
+COUPLED = ("not in_state(self, 'no_role_set') and in_state(self._framer, 'want_frame') == "
+           "in_state(self, 'want_handshake_leader', 'want_handshake_follower', 'want_message')")
+FRAMER_INV_R = "in_state(self._framer, 'want_frame') == self._framer._can_send_frames"
+IS_FRAME = "isinstance(token, Frame)"
+
+GEN_CONTRACTS += [
+    Contract(f"{CON}:{AU}", props=[PROP], params={"data": "bytes"}, self_fields=RECORD_FIELDS,
+             requires=[COUPLED, FRAMER_INV_R],
+             modifies=["__state", "_framer.__state", "_framer._buffer", "_framer._can_send_frames"],
+             raises={"Disconnect": None, "ValueError": None, "UnicodeDecodeError": None},
+             ensures=[("machines-still-in-lock-step", COUPLED), ("framer-invariant-kept", FRAMER_INV_R)],
+             ensures_raise={e: [("the-failing-token-yields-nothing", f"body_yields('{AU}', '{AU}') == 0")]
+                            for e in ("ValueError", "UnicodeDecodeError")},
+             loops={0: {"header": "for token in self._framer.add_and_parse(data)",
+                        "modifies": [("self", "__state")],
+                        "invariant": [COUPLED],
+                        "body_ensures": [
+                            f"body_inputs('{AU}', 'got_prologue') == ite(isinstance(token, Prologue), 1, 0)",
+                            f"body_inputs('{AU}', 'got_frame') == ite({IS_FRAME}, 1, 0)",
+                            f"implies({IS_FRAME}, body_input_arg('{AU}', 'got_frame', 0, 0) == token.frame)",
+                            f"body_yields('{AU}', '{AU}') == ite({IS_FRAME}, 1, 0)",
+                            f"implies({IS_FRAME}, isinstance(body_yield('{AU}', '{AU}', 0), Handshake_or_Records))",
+                            f"body_calls('{AU}', 'decrypt_message') == ite({IS_FRAME} and at_iter(in_state(self, 'want_message')), 1, 0)",
+                            f"body_calls('{AU}', 'process_handshake') == "
+                            f"ite({IS_FRAME} and at_iter(in_state(self, 'want_handshake_leader', 'want_handshake_follower')), 1, 0)",
+                            f"implies(body_calls('{AU}', 'decrypt_message') == 1, body_call_arg('{AU}', 'decrypt_message', 0, 1) == token.frame)",
+                            f"implies(body_calls('{AU}', 'process_handshake') == 1, body_call_arg('{AU}', 'process_handshake', 0, 1) == token.frame)",
+                            f"body_calls('{AU}', 'send_frame') == ite((isinstance(token, Prologue) and at_iter(in_state(self, 'want_prologue_leader')))"
+                            f" or ({IS_FRAME} and at_iter(in_state(self, 'want_handshake_follower'))), 1, 0)",
+                            f"body_bcalls('{AU}', 'write_message') == body_calls('{AU}', 'send_frame') and "
+                            f"(body_calls('{AU}', 'send_frame') == 0 or body_call_arg('{AU}', 'send_frame', 0, 1) == noise_handshake_out(0))"]}},
+             note="every Frame token of the framer goes to got_frame exactly once, in order, with exactly its bytes (so the k-th "
+                  "frame meets the k-th Noise decrypt); one value is yielded per Frame and none for the Prologue; the Noise "
+                  "handshake message is framed once: by the Leader on the prologue, by the Follower after reading the Leader's. "
+                  "Framer loop invariants are re-proved here with this loop body running at every yield (real interleaving)"),
+]
+
 
 def regf_gen():
     reg = regf()
@@ -316,13 +422,26 @@ def regf_gen():
     reg.check_loop_frame = True            # every location a loop iteration changes must be havocked at the cut
     _setup_spec(reg)
     _setup_gen_spec(reg)
+    reg.class_fields["_Framer"] = dict(FRAMER_FIELDS)
+    reg.class_fields["_Record"] = dict(RECORD_FIELDS)
+    reg.boundary["Noise.write_message"] = noise_write_message
     return reg
 
 
 def _iter_events(it, name):
+    """events of the current loop iteration made by the loop's own function: what a consumer's loop body did while the
+    generator was suspended at a yield (bracketed by for-body-start / for-body-end) is not the generator's doing"""
     tr = it.ctx.trace
     start = max([i for i, e in enumerate(tr) if e[0] == "loop-body-start"] + [-1])
-    return [e for e in tr[start + 1:] if e[0] == name]
+    out, depth = [], 0
+    for e in tr[start + 1:]:
+        if e[0] == "for-body-start":
+            depth += 1
+        elif e[0] == "for-body-end":
+            depth -= 1
+        elif depth == 0 and e[0] == name:
+            out.append(e)
+    return out
 
 
 def _setup_gen_spec(reg):
@@ -330,7 +449,7 @@ def _setup_gen_spec(reg):
 
     def iter_yields(it, kind=None):
         """number of values the generator under verification yielded in the current loop iteration (of the given namedtuple type)"""
-        evs = _iter_events(it, "yield")
+        evs = [e for e in _iter_events(it, "yield") if e[1][1].endswith("_Framer.add_and_parse")]
         if kind is not None:
             kind = it.concrete(kind)
             evs = [e for e in evs if isinstance(it.force(e[1][0]), VTuple) and it.force(e[1][0]).ntname == kind]
@@ -342,6 +461,8 @@ def _setup_gen_spec(reg):
         """be4(len(f)) + f for every Frame token f yielded in the current iteration, concatenated in yield order"""
         out = VStr(z3.StringVal(""), "bytes")
         for e in _iter_events(it, "yield"):
+            if not e[1][1].endswith("_Framer.add_and_parse"):
+                continue
             v = it.force(e[1][0])
             if isinstance(v, VTuple) and v.ntname == "Frame":
                 f = v.items[0]
@@ -349,6 +470,18 @@ def _setup_gen_spec(reg):
         return out
 
     sf["iter_frame_wire"] = iter_frame_wire
+
+    def iter_own_bcalls(it, *names):
+        want = set(it.concrete(n) for n in names)
+        return VInt(sum(1 for e in _iter_events(it, "bcall") if not want or e[1][1] in want))
+
+    def iter_own_bcall_arg(it, name, k, i):
+        name, k, i = it.concrete(name), it.concrete(k), it.concrete(i)
+        evs = [e for e in _iter_events(it, "bcall") if e[1][1] == name]
+        return evs[k][1][2][i] if k < len(evs) else VObj("<missing>")
+
+    sf["iter_own_bcalls"] = iter_own_bcalls
+    sf["iter_own_bcall_arg"] = iter_own_bcall_arg
 
     def handshake_bytes(it, fr_obj, before):
         """what a framer state change consumed: the relay reply (want_relay left), the prologue (want_frame entered);
@@ -362,6 +495,93 @@ def _setup_gen_spec(reg):
         return VStr(z3.Concat(a, b), "bytes")
 
     sf["handshake_bytes"] = handshake_bytes
+
+    def body_events(it, loop_fn):
+        """events since the loop body of the generator-for in function `loop_fn` last started (for_generator marks it)"""
+        loop_fn = it.concrete(loop_fn)
+        tr = it.ctx.trace
+        start = max([i for i, e in enumerate(tr) if e[0] == "for-body-start" and e[1][0].endswith(loop_fn)] + [-1])
+        return tr[start + 1:]
+
+    def body_inputs(it, loop_fn, *names):
+        want = set(it.concrete(n) for n in names)
+        return VInt(sum(1 for e in body_events(it, loop_fn) if e[0] == "input" and e[1][0] in want))
+
+    def body_input_arg(it, loop_fn, name, k, i):
+        name, k, i = it.concrete(name), it.concrete(k), it.concrete(i)
+        evs = [e for e in body_events(it, loop_fn) if e[0] == "input" and e[1][0] == name]
+        return evs[k][1][1][i] if k < len(evs) else VObj("<missing>")
+
+    def body_yields(it, loop_fn, gen):
+        gen = it.concrete(gen)
+        return VInt(sum(1 for e in body_events(it, loop_fn) if e[0] == "yield" and e[1][1].endswith(gen)))
+
+    def body_yield(it, loop_fn, gen, k):
+        gen, k = it.concrete(gen), it.concrete(k)
+        evs = [e for e in body_events(it, loop_fn) if e[0] == "yield" and e[1][1].endswith(gen)]
+        return evs[k][1][0] if k < len(evs) else VObj("<missing>")
+
+    def body_calls(it, loop_fn, *suffixes):
+        want = tuple(it.concrete(n) for n in suffixes)
+        return VInt(sum(1 for e in body_events(it, loop_fn) if e[0] == "call" and e[1][0].endswith(want)))
+
+    def body_call_arg(it, loop_fn, suffix, k, i):
+        suffix, k, i = it.concrete(suffix), it.concrete(k), it.concrete(i)
+        evs = [e for e in body_events(it, loop_fn) if e[0] == "call" and e[1][0].endswith(suffix)]
+        return evs[k][1][1][i] if k < len(evs) and i < len(evs[k][1][1]) else VObj("<missing>")
+
+    def body_bcalls(it, loop_fn, *names):
+        want = set(it.concrete(n) for n in names)
+        return VInt(sum(1 for e in body_events(it, loop_fn) if e[0] == "bcall" and (e[1][1] in want or not want)))
+
+    def body_bcall_arg(it, loop_fn, name, k, i):
+        name, k, i = it.concrete(name), it.concrete(k), it.concrete(i)
+        evs = [e for e in body_events(it, loop_fn) if e[0] == "bcall" and e[1][1] == name]
+        return evs[k][1][2][i] if k < len(evs) else VObj("<missing>")
+
+    for f_ in (body_inputs, body_input_arg, body_yields, body_yield, body_calls, body_call_arg, body_bcalls, body_bcall_arg):
+        sf[f_.__name__] = f_
+
+    def unreturned_calls(it, *suffixes):
+        """contract-applied calls (to the named functions) that ended by raising: a `call` event not followed by its `callret`"""
+        want = tuple(it.concrete(n) for n in suffixes)
+        tr = it.ctx.trace
+        n = 0
+        for i, e in enumerate(tr):
+            if e[0] == "call" and (not want or e[1][0].endswith(want)):
+                if not (i + 1 < len(tr) and tr[i + 1][0] == "callret" and tr[i + 1][1][0] == e[1][0]):
+                    n += 1
+        return VInt(n)
+
+    sf["unreturned_calls"] = unreturned_calls
+
+    def noise_handshake_out(it, k):
+        k = it.concrete(k)
+        evs = [e for e in it.ctx.trace if e[0] == "noise.write_message"]
+        return evs[-1 - k][1][0] if k < len(evs) else VObj("<missing>")
+
+    sf["noise_handshake_out"] = noise_handshake_out
+
+    def last_action(it):
+        """name of the last boundary call / Automat input / contract call on this path"""
+        for e in reversed(it.ctx.trace):
+            if e[0] == "bcall":
+                return VStr(e[1][1])
+            if e[0] == "input":
+                return VStr(e[1][0])
+            if e[0] == "call":
+                return VStr(e[1][0].split(".")[-1])
+        return VStr("")
+
+    sf["last_action"] = last_action
+
+    def last_input_class(it):
+        for e in reversed(it.ctx.trace):
+            if e[0] == "input":
+                return VStr(e[1][2] if len(e[1]) > 2 else "?")
+        return VStr("")
+
+    sf["last_input_class"] = last_input_class
     sf["state_index"] = lambda it, o: VInt(it.force(o).fields["__state"].z)
 
 
